@@ -74,6 +74,17 @@ func runScript(rnd *rand.Rand, c scriptCase, cutAt int) {
 			if k > len(p) {
 				k = len(p)
 			}
+			if c.Policy == "with-empty" && rnd.Intn(3) == 0 {
+				// a well-formed frame without content (length 0, tag only): it uses up a counter value and carries nothing
+				stream = append(stream, fr.SealFrame(nil)...)
+				c.FrameLen = append(c.FrameLen, 0)
+				last := frameEnd{}
+				if len(ends) > 0 {
+					last = ends[len(ends)-1]
+				}
+				ends = append(ends, frameEnd{len(stream), last.plain})
+				run.Count("empty_frames_sent_by_the_peer", 1)
+			}
 			stream = append(stream, fr.SealFrame(p[:k])...)
 			c.FrameLen = append(c.FrameLen, k)
 			last := frameEnd{}
@@ -82,6 +93,13 @@ func runScript(rnd *rand.Rand, c scriptCase, cutAt int) {
 			}
 			ends = append(ends, frameEnd{len(stream), last.plain + k})
 			p = p[k:]
+		}
+		if c.Policy == "with-empty" && rnd.Intn(2) == 0 {
+			// ... also as the last frame of a message (what some peers send after a message of k*1024 bytes)
+			stream = append(stream, fr.SealFrame(nil)...)
+			c.FrameLen = append(c.FrameLen, 0)
+			ends = append(ends, frameEnd{len(stream), ends[len(ends)-1].plain})
+			run.Count("empty_frames_sent_by_the_peer", 1)
 		}
 		msgEndsRaw = append(msgEndsRaw, len(stream))
 	}
@@ -347,7 +365,7 @@ func main() {
 
 	segs := []string{"whole", "bytewise", "per-frame", "per-message", "pairs", "random", "header-split"}
 	idles := []string{"none", "none", "every", "random", "double"}
-	policies := []string{"max", "max", "arbitrary", "small"}
+	policies := []string{"max", "max", "arbitrary", "small", "with-empty"}
 	caseNo := 0
 	do := func(c scriptCase, cutAt int) {
 		caseNo++
@@ -416,6 +434,7 @@ func main() {
 		do(scriptCase{Msgs: msgs, Policy: policies[rnd.Intn(len(policies))], Seg: segs[rnd.Intn(len(segs))], Idle: idles[rnd.Intn(len(idles))], Buf: bufm}, -1)
 	}
 	r.Floor("scripts", caseNo, 3000)
+	r.Floor("empty_frames_sent_by_the_peer", int(r.Counter("empty_frames_sent_by_the_peer")), 300)
 	r.Floor("idle_periods_injected", int(r.Counter("idle_periods_injected")), 1000)
 
 	r.Guard("harness N", func() { neighbours(r) })
